@@ -33,7 +33,7 @@ pub struct Setup {
     /// 0 = RustCrypto (default), 1 = OpenSSL, 2 = AWS-LC
     pub provider: u8,
     /// this client publishes invalid key packages (hist offender kind 6): 0 = no, 1 = a default proposal type listed in the
-    /// capabilities, 2 = a default extension type listed, 3 = expired lifetime
+    /// capabilities, 2 = a default extension type listed, 3 = expired lifetime, 4 = a client of another cipher suite
     pub bad_caps: u8,
 }
 
